@@ -129,25 +129,66 @@ def step (st : St) : List String → St × String
   | ["swapstatic", n, t] =>
     match ofHex n, ofHex t, st.a with
     | some n, some t, some a =>
-      match openTargetStatic st.fs a n with
-      | none => let (r, a') := getStatic st.fs a n; ({ st with a := some a' }, showRes r ++ " swapped=0")
-      | some resolved =>
+      let cand := match a with
+        | .filesystem s => pathAppend s.staticsRoot n
+        | .embedded r => pathAppend r.externalDir n
+      match (reachedStatic (Snaps.const st.fs) a n).contains Point.O, weaklyCanonical st.fs cand with
+      | true, .ok resolved =>
         let fsO := st.fs.set (locOf resolved) (.link t)
-        let (r, a') := getStaticAt st.fs fsO a n
+        let (r, a') := getStaticAt (Snaps.switchAt st.fs fsO .O) a n
         ({ fs := fsO, a := some a' }, showRes r ++ " swapped=1")
+      | _, _ => let (r, a') := getStatic st.fs a n; ({ st with a := some a' }, showRes r ++ " swapped=0")
     | some _, some _, none => (st, "no-instance")
     | _, _, _ => (st, "bad-op")
   | ["swaptemplate", n, t] =>
     match ofHex n, ofHex t, st.a with
     | some n, some t, some a =>
-      match openTargetTemplate st.fs a n with
-      | none => let (r, a') := getTemplate st.fs a n; ({ st with a := some a' }, showTpl r ++ " swapped=0")
-      | some resolved =>
+      let cand := match a with
+        | .filesystem s => pathAppend s.templatesRoot n
+        | .embedded _ => n
+      match (reachedTemplate (Snaps.const st.fs) a n).contains Point.O, weaklyCanonical st.fs cand with
+      | true, .ok resolved =>
         let fsO := st.fs.set (locOf resolved) (.link t)
-        let (r, a') := getTemplateAt st.fs fsO a n
+        let (r, a') := getTemplateAt (Snaps.switchAt st.fs fsO .O) a n
         ({ fs := fsO, a := some a' }, showTpl r ++ " swapped=1")
+      | _, _ => let (r, a') := getTemplate st.fs a n; ({ st with a := some a' }, showTpl r ++ " swapped=0")
     | some _, some _, none => (st, "no-instance")
     | _, _, _ => (st, "bad-op")
+  | "sched" :: kind :: n :: pt :: mk :: p :: rest =>
+    let pt? : Option Point := match pt with
+      | "C" => some .C | "R" => some .R | "O" => some .O | "G" => some .G | "Z" => some .Z | _ => none
+    let data? : Option Bytes := match rest with
+      | [] => some []
+      | [d] => ofHex d
+      | _ => none
+    match ofHex n, pt?, ofHex p, data?, st.a with
+    | some n, some pt, some p, some d, some a =>
+      let fs'? : Option Fs := match mk, rest with
+        | "l", [_] => some (st.fs.set (locOf p) (.link d))
+        | "f", [_] => some (st.fs.set (locOf p) (.file d))
+        | "d", [] => some (st.fs.set (locOf p) .dir)
+        | "r", [] => some (st.fs.remove (locOf p))
+        | _, _ => none
+      match fs'?, kind with
+      | some fs', "static" =>
+        let sn := Snaps.switchAt st.fs fs' pt
+        if (reachedStatic sn a n).contains pt then
+          let (r, a') := getStaticAt sn a n
+          ({ fs := fs', a := some a' }, showRes r ++ " fired=1")
+        else
+          let (r, a') := getStatic st.fs a n
+          ({ st with a := some a' }, showRes r ++ " fired=0")
+      | some fs', "template" =>
+        let sn := Snaps.switchAt st.fs fs' pt
+        if (reachedTemplate sn a n).contains pt then
+          let (r, a') := getTemplateAt sn a n
+          ({ fs := fs', a := some a' }, showTpl r ++ " fired=1")
+        else
+          let (r, a') := getTemplate st.fs a n
+          ({ st with a := some a' }, showTpl r ++ " fired=0")
+      | _, _ => (st, "bad-op")
+    | some _, some _, some _, some _, none => (st, "no-instance")
+    | _, _, _, _, _ => (st, "bad-op")
   | ["reload"] => ({ st with a := st.a.map reload }, "ok")
   | "storm" :: _ => ({ st with a := st.a.map reload }, "storm ok")
   | _ => (st, "bad-op")
